@@ -2,7 +2,7 @@
 import re, vcheck
 
 PID = "C07"
-MODULES = ["BeffVerif.Props.C07", "BeffVerif.Props.C07Print"]
+MODULES = ["BeffVerif.Props.C07", "BeffVerif.Props.C07Print", "BeffVerif.Props.C07Keyof"]
 AUDIT = "BeffVerif/Audit/C07.lean"
 HYP = {"NoObjectUnionOnLeft": "D25"}
 
